@@ -1019,11 +1019,57 @@ func (env *Env) applySpec(sp *SpecFn, args []Expr) Val {
 	return Val{T: cs.result, S: fmt.Sprintf("(%s %s)", sp.Name, strings.Join(as, " "))}
 }
 
+// UnfoldSpec returns the formula  f(args) == body_of_f[params := args]  for a spec function call.
+func (env *Env) UnfoldSpec(x Expr) (s string, err error) {
+	defer func() {
+		if r := recover(); r != nil {
+			if ee, ok := r.(elabErr); ok {
+				err = ee
+				return
+			}
+			panic(r)
+		}
+	}()
+	call, ok := x.(*ECall)
+	if !ok {
+		return "", fmt.Errorf("unfold needs a spec function application")
+	}
+	id, ok := call.Fun.(*EIdent)
+	if !ok {
+		return "", fmt.Errorf("unfold needs a spec function application")
+	}
+	sp := env.c.specs.lookup(id.Name)
+	if sp == nil || sp.Body == nil {
+		return "", fmt.Errorf("unfold: %s is not a defined spec function", id.Name)
+	}
+	cs := env.c.compileSpec(sp)
+	if cs.opaque || len(call.Args) != len(sp.Params) {
+		return "", fmt.Errorf("unfold: %s cannot be unfolded here", id.Name)
+	}
+	app := env.elab(call)
+	if env.c.handUnfolded == nil {
+		env.c.handUnfolded = map[string]bool{}
+	}
+	env.c.handUnfolded[id.Name] = true
+	inner := env.child()
+	inner.pkg = sp.Pkg
+	for i, p := range sp.Params {
+		v := env.elab(call.Args[i])
+		inner.vars[p.Name] = inner.coerceTo(v, cs.params[i])
+	}
+	inner.lookup = nil
+	inner.localsFirst = false
+	body := inner.coerceTo(inner.elab(sp.Body), cs.result)
+	return fmt.Sprintf("(= %s %s)", app.S, body.S), nil
+}
+
 func (s *SpecEnv) emit(c *Ctx) string {
 	var sb strings.Builder
 	for _, n := range c.specOrder {
 		cs := c.cspecs[n]
-		if cs.opaque {
+		// a spec function that the contract unfolds by hand is left uninterpreted in this context: the
+		// explicit instances are all the solver needs, and recursive definitions make it diverge
+		if cs.opaque || c.handUnfolded[n] {
 			var ps []string
 			for _, t := range cs.params {
 				ps = append(ps, c.sortOf(t))
